@@ -160,6 +160,56 @@ def _find_e2e(k, ws, mid, lazy, msel, mwl):
     return ok
 
 
+def _status_in_form(code, form):
+    """the ways an application may express a status it yields: the library only ever takes int() of it"""
+    if form == 0:
+        return statuses.Status(code, dm.CFindRSPMessage)
+    if form == 1:
+        return statuses.Status(code)                     # without the response type (as the documentation shows it)
+    if form == 2:
+        return code                                      # plain integer
+    return statuses.C_FIND_PENDING if code == 0xFF00 else statuses.C_FIND_PENDING_WARNING
+
+
+@cond(bounds='C-FIND provider alone (query/retrieve and worklist variant, one instance each): k = 1..3 matches (symbolic), '
+             'pending code FF00 / FF01 per match (symbolic), and the FORM in which the application yields each status is a '
+             'symbolic choice per match: Status(code, C-FIND-RSP), Status(code) without a response type, plain int, the '
+             'module constant - the provider sends exactly k pending responses with those codes and identifiers, in '
+             'order, then one final success', family={'mwl': [0, 1]}, timeout=300)
+def find_status_forms(k: int, w0: bool, w1: bool, w2: bool, f0: int, f1: int, f2: int) -> bool:
+    """
+    pre: 1 <= k <= 3 and 0 <= f0 <= 3 and 0 <= f1 <= 3 and 0 <= f2 <= 3
+    pre: (k > 1 or (f1 == 0 and not w1)) and (k > 2 or (f2 == 0 and not w2))
+    post: _
+    """
+    from vt import sim
+    k = pick(k, 1, 3)
+    forms = [pick(f, 0, 3) for f in (f0, f1, f2)][:k]
+    ws = [bool(pick(int(w), 0, 1)) for w in (w0, w1, w2)][:k]
+    mwl = fam('mwl')
+    with sim._no_tracing():
+        sop = MWL if mwl else ROOT
+        scp = sopclass.modality_work_list_scp if mwl else sopclass.qr_find_scp
+        pend = [PEND[1] if w else PEND[0] for w in ws]
+        pae = ProviderAE([(pool(i), _status_in_form(p, f)) for i, (p, f) in enumerate(zip(pend, forms))])
+        passoc = RecAssoc(pae, 16384)
+        rq = dm.CFindRQMessage()
+        rq.message_id = 7
+        rq.sop_class_uid = sop
+        rq.priority = 0
+        rq.data_set = dsutils.encode(query(), True, True)
+        scp(passoc, ctx_of(3, sop), rq)
+        sent = passoc.sent()
+        ok = len(sent) == k + 1
+        if ok:
+            for i in range(k):
+                ok = ok and sent[i].status == pend[i] and sent[i].data == dsutils.encode(pool(i), True, True) \
+                    and sent[i].responded_to == 7
+            ok = ok and sent[k].status == 0 and sent[k].data is None and sent[k].responded_to == 7
+    deep(ok and k == 3 and f1 == 1 and w2)
+    return ok
+
+
 def _rsp(status, ds, mid):
     m = dm.CFindRSPMessage()
     m.message_id_being_responded_to = mid
